@@ -15,6 +15,7 @@ IntV(x) == <<"int", x>>
 \* a serialized public key whose length matches its header byte (CPubKey::IsValid)
 KeyShape(k) == (Len(k) = 33 /\ k[1] \in {2, 3}) \/ (Len(k) = 65 /\ k[1] \in {4, 6, 7})
 TfFail == <<"fail">>
+TfUnspec == <<"unspec">>          \* outside the function's domain: whatever the tool prints is not compared
 DefaultHrp == StrToCodes("bcrt")
 
 Two256 == Zeros(32) \o <<1>>
@@ -26,6 +27,8 @@ AddMod(a, b, g) == \* a, b, g as naturals; g = <<>> means modulo 2^256
 SubMod(a, b, g) ==
     IF g = <<>> THEN (IF Le(b, a) THEN Sub(a, b) ELSE Sub(Add(a, Two256), b))
     ELSE (IF Le(b, a) THEN DivMod(Sub(a, b), g)[2] ELSE DivMod(Sub(Add(a, g), b), g)[2])
+
+InGroup(args, nb) == nb < 3 \/ U256(args[3][2]) = <<>> \/ (Lt(U256(args[1][2]), U256(args[3][2])) /\ Lt(U256(args[2][2]), U256(args[3][2])))
 
 \* Jacobi symbol (n / k), k odd: the standard binary algorithm
 RECURSIVE JacobiLoop(_, _, _)
@@ -64,8 +67,9 @@ Transform(name, args) ==
       [] name = "len" -> IntV(IntFromSmall(Len(b1)))
       [] name = "hex" -> Str(StrToCodes(BytesToHex(b1)))
       [] name = "int" -> IF Len(b1) > 4 THEN TfFail ELSE IntV(Decode(b1))
-      [] name = "add" -> IF nb < 2 \/ nb > 3 THEN TfFail ELSE Data(Pad32(AddMod(U256(args[1][2]), U256(args[2][2]), IF nb = 3 THEN U256(args[3][2]) ELSE <<>>)))
-      [] name = "sub" -> IF nb < 2 \/ nb > 3 THEN TfFail ELSE Data(Pad32(SubMod(U256(args[1][2]), U256(args[2][2]), IF nb = 3 THEN U256(args[3][2]) ELSE <<>>)))
+      \* addition / subtraction in Z_g are functions of group elements: with a modulus the operands must be below it (otherwise unspecified)
+      [] name = "add" -> IF nb < 2 \/ nb > 3 THEN TfFail ELSE IF ~InGroup(args, nb) THEN TfUnspec ELSE Data(Pad32(AddMod(U256(args[1][2]), U256(args[2][2]), IF nb = 3 THEN U256(args[3][2]) ELSE <<>>)))
+      [] name = "sub" -> IF nb < 2 \/ nb > 3 THEN TfFail ELSE IF ~InGroup(args, nb) THEN TfUnspec ELSE Data(Pad32(SubMod(U256(args[1][2]), U256(args[2][2]), IF nb = 3 THEN U256(args[3][2]) ELSE <<>>)))
       [] name = "addr_to_spk" -> (LET d == Decode58Check(b1) IN IF a1[1] # "str" \/ ~d[1] \/ Len(d[2]) # 21 THEN TfFail ELSE Data(P2pkh(Tail(d[2]))))
       [] name = "spk_to_addr" -> IF Len(b1) # 25 \/ FirstN(b1, 3) # <<OP_DUP, OP_HASH160, 20>> \/ LastN(b1, 2) # <<OP_EQUALVERIFY, OP_CHECKSIG>> THEN TfFail
                                  ELSE Str(Encode58Check(<<0>> \o Take(b1, 3, 20)))
